@@ -991,6 +991,11 @@ namespace link_layer {
                 this->connection_requested( details(), connection_data_, static_cast< radio_t& >( *this ) );
                 this->template handle_connection_events< link_layer< Server, ScheduledRadio, Options... > >();
             }
+            else
+            {
+                // the connection request is refused, keep on advertising
+                this->handle_adv_timeout();
+            }
         }
     }
 
